@@ -27,10 +27,23 @@ def wCfg (rd : List String) (maxStep : Int) : Config :=
 def wOrig : List Msg := [⟨.user, "hi", [], ""⟩]
 
 /-- content chunk first, the tool call in the second chunk -/
-def wLate : Reply := ⟨[⟨"thinking", [], []⟩, ⟨"", [⟨"c1", "t", "x"⟩], []⟩]⟩
+def wLate : Reply := ⟨[⟨"thinking", [], []⟩, ⟨"", [⟨"c1", "t", "x", none⟩], []⟩]⟩
 def wDone : Reply := ⟨[⟨"done", [], []⟩]⟩
 
 /-- a head chunk that carries nothing but provider metadata (`Extra`), then the tool call -/
-def wMetaHead : Reply := ⟨[⟨"", [], ["extra:request_id"]⟩, ⟨"", [⟨"c1", "t", "x"⟩], []⟩]⟩
+def wMetaHead : Reply := ⟨[⟨"", [], ["extra:request_id"]⟩, ⟨"", [⟨"c1", "t", "x", none⟩], []⟩]⟩
+
+/-- two parallel calls of `t` streamed as deltas, one delta per call in every chunk: heads (id,
+    name), then the arguments in two fragments each -/
+def wInterleaved : Reply := ⟨[
+  ⟨"", [⟨"c0", "t", "", some 0⟩, ⟨"c1", "t", "", some 1⟩], []⟩,
+  ⟨"", [⟨"", "", "{\"a\":", some 0⟩, ⟨"", "", "{\"b\":", some 1⟩], []⟩,
+  ⟨"", [⟨"", "", "1}", some 0⟩, ⟨"", "", "2}", some 1⟩], []⟩]⟩
+
+/-- the same deltas, those of each call back to back -/
+def wContiguous : Reply := ⟨[
+  ⟨"", [⟨"c0", "t", "", some 0⟩, ⟨"", "", "{\"a\":", some 0⟩], []⟩,
+  ⟨"", [⟨"", "", "1}", some 0⟩, ⟨"c1", "t", "", some 1⟩], []⟩,
+  ⟨"", [⟨"", "", "{\"b\":", some 1⟩, ⟨"", "", "2}", some 1⟩], []⟩]⟩
 
 end EinoV.C18
